@@ -554,5 +554,52 @@ func Catalogue(opt Options) []*Unit {
 		add(&Unit{Label: `&` + mname + `{}`, Render: "empty", Conn: "empty", NegOK: true,
 			Args: func(*gorm.DB) []interface{} { return []interface{}{opt.ModelStruct(nil, nil, nil)} }})
 	}
+
+	// ---------------------------------------------------------- nested negation
+	// (appended at the end so that the indices of the units above stay stable)
+	// The outer negation negates the inner unit as a whole, whatever the inner
+	// unit means under the property's reading (every member false for a
+	// multi-member Not, logical negation for a raw / OR / single one).
+	afAB := AllFalse(A1.n, B1.n)
+	nn := func(label, render string, t *Node, rep int, args func(*gorm.DB) []interface{}) {
+		add(&Unit{Label: label, Render: render, Conn: "mixed", Tree: t, Neg: Not(t), NegOK: true, Unqualified: true, Rep: rep, Args: args})
+	}
+	nn(`clause.Not(Eq{a,1},Eq{b,1})`, "clause", afAB, 0, static(clause.Not(A1.expr, B1.expr)))
+	nn(`clause.Not(clause.Not(Eq{a,1},Eq{b,1}))`, "clause", Not(afAB), 2, static(clause.Not(clause.Not(A1.expr, B1.expr))))
+	nn(`clause.Not(clause.Not(Eq{a,1}))`, "clause", Not(Not(A1.n)), 0, static(clause.Not(clause.Not(A1.expr))))
+	nn(`clause.Not(clause.Not(clause.And(Eq{s,"x"},Lt{b,2})))`, "clause", Not(AllFalse(SX.n, BLt.n)), 0,
+		static(clause.Not(clause.Not(clause.And(SX.expr, BLt.expr)))))
+	nn(`clause.Not(clause.Not(clause.Or(Eq{a,1},Eq{b,1})))`, "clause", Not(Not(orAB)), 0,
+		static(clause.Not(clause.Not(clause.Or(A1.expr, B1.expr)))))
+	nn(`clause.Not(clause.Not(Expr{"a = 1 OR b = 1"}))`, "clause", Not(Not(orAB)), 0,
+		static(clause.Not(clause.Not(clause.Expr{SQL: "a = 1 OR b = 1"}))))
+	nn(`db.Not(map{"a":1,"b":1})`, "group", afAB, 2,
+		func(base *gorm.DB) []interface{} {
+			return []interface{}{base.Not(map[string]interface{}{"a": 1, "b": 1})}
+		})
+	nn(`db.Not(Cols{A:1,B:1})`, "group", afAB, 0,
+		func(base *gorm.DB) []interface{} { return []interface{}{base.Not(Cols{A: 1, B: 1})} })
+	u := us[len(us)-1]
+	u.Unqualified = false
+	nn(`db.Not(db.Where(Eq{a,1}).Where(Eq{b,1}))`, "group", afAB, 0,
+		func(base *gorm.DB) []interface{} { return []interface{}{base.Not(base.Where(A1.expr).Where(B1.expr))} })
+	nn(`db.Not(db.Where(Eq{a,1}).Or(Eq{b,1}))`, "group", Not(orAB), 0,
+		func(base *gorm.DB) []interface{} { return []interface{}{base.Not(base.Where(A1.expr).Or(B1.expr))} })
+	nn(`db.Not("a = 1 AND b = 1")`, "group", Not(andAB), 0,
+		func(base *gorm.DB) []interface{} { return []interface{}{base.Not("a = 1 AND b = 1")} })
+	nn(`db.Not(db.Not(map{"a":1,"b":1}))`, "group", Not(afAB), 0,
+		func(base *gorm.DB) []interface{} {
+			return []interface{}{base.Not(base.Not(map[string]interface{}{"a": 1, "b": 1}))}
+		})
+	nn(`db.Not(db.Not(Cols{B:2,S:"x"}))`, "group", Not(AllFalse(B2.n, SX.n)), 0,
+		func(base *gorm.DB) []interface{} { return []interface{}{base.Not(base.Not(Cols{B: 2, S: "x"}))} })
+	us[len(us)-1].Unqualified = false
+	// Where + Not inside one group: an AND-group with the members x and NOT(..)
+	gt := And(SX.n, afAB)
+	add(&Unit{Label: `db.Where(Eq{s,"x"}).Not(map{"a":1,"b":1})`, Render: "group", Conn: "mixed", Tree: gt, Neg: AllFalse(SX.n, afAB), NegOK: true,
+		Unqualified: true,
+		Args: func(base *gorm.DB) []interface{} {
+			return []interface{}{base.Where(SX.expr).Not(map[string]interface{}{"a": 1, "b": 1})}
+		}})
 	return us
 }
